@@ -4,6 +4,7 @@ import MsVerif.Driver.OpsTap
 import MsVerif.Driver.OpsPolicy
 import MsVerif.Driver.OpsSpend
 import MsVerif.Driver.OpsSat
+import MsVerif.Driver.OpsSatD
 import MsVerif.Driver.OpsText
 import MsVerif.Driver.OpsLift
 import MsVerif.Driver.OpsDesc
@@ -95,7 +96,10 @@ def step (st : DState) (line : String) : DState × String :=
                                         | none =>
                                           match opsMalle st.tables kind op args with
                                           | some r => (st, r)
-                                          | none => (st, "bad-op")
+                                          | none =>
+                                            match SatD.opsSatD st.tables kind op args with
+                                            | some r => (st, r)
+                                            | none => (st, "bad-op")
   | _ => (st, "bad-op")
 
 end MsVerif.Driver
